@@ -583,6 +583,37 @@ func checkRoundTrip(R *vlib.Out, t *tmpl, hp, bp, tp []*pop, out []byte, rp serR
 			R.Violate("reserialize-differs", vlib.Show(out)+" vs "+vlib.Show(out2), rp)
 			return
 		}
+		if strict {
+			// the parsed message is a message like any other: one field of one group entry is changed in place
+			// and exactly that field changes on the wire (entries that were decoded from identical bytes are
+			// still entries of their own)
+			hp2, bp2, tp2 := clonePops(hp), clonePops(bp), clonePops(tp)
+			var ls []liveRef
+			liveLeaves(t.Hdr, hp2, p.Header().Items(), false, &ls)
+			liveLeaves(t.Body, bp2, p.Body(), false, &ls)
+			for _, l := range ls {
+				if !l.inGroup || l.n.Typ == "Time" {
+					continue
+				}
+				alt := altVal[l.n.Typ]
+				if l.p.Val == alt {
+					alt = defVal[l.n.Typ]
+				}
+				if pan := safely(func() {
+					if err := l.kv.Value.Set(decode(l.n.Typ, alt)); err != nil {
+						panic(err)
+					}
+				}); pan != "" {
+					R.Violate("parsed-then-changed:panic", pan+" "+describe(t), rp)
+					return
+				}
+				l.p.Val, l.p.Route = alt, 's'
+				if !checkBytes(R, "C17", t, hp2, bp2, tp2, p, rp, "parsed-then-changed:") {
+					return
+				}
+				break
+			}
+		}
 	}
 	R.ClassD(unitKey(t) + typedKey(t.Body) + "/" + popKey(bp) + "/" + popKey(hp) + popKey(tp) + "/" + valKey(hp, bp, tp, t))
 	R.Outcome(fmt.Sprintf("roundtrip-ok fields=%d", len(fs)))
